@@ -34,7 +34,7 @@ RULE = (
     "distinct interleavings (decision sequences) per scenario; non-trivial = a schedule with at least one context "
     "switch between two operations on the shared lookup."
 )
-RULE += ' added since: scenario modify-first, quiescence oracle (after all threads finish one more get must return a template of the newest source), cached defs with two cache types recorded by the backend, module-namespace race, render templates under /sub with relative URIs and root-level decoys. three free-running renders racing for the first use of a cached def / page / block with the Beaker backend. a modification of the referred-to template injected at each get_template call made during a render (inherit / include / namespace). import= names read in the body and in a nested def of the concurrently rendered template.'
+RULE += ' added since: scenario modify-first, quiescence oracle (after all threads finish one more get must return a template of the newest source), cached defs with two cache types recorded by the backend, module-namespace race, render templates under /sub with relative URIs and root-level decoys. three free-running renders racing for the first use of a cached def / page / block with the Beaker backend. a modification of the referred-to template injected at each get_template call made during a render (inherit / include / namespace). import= names read in the body and in a nested def of the concurrently rendered template. two renders held inside the decorator of a top-level def at the same time.'
 ASSUMPTIONS = [
     "single bytecodes / dict operations are atomic (GIL builds); interleavings inside C-level operations are not explored",
     "file modifications are made atomic with respect to the scheduler (content and mtime change together)",
@@ -43,6 +43,7 @@ ASSUMPTIONS = [
 MIN_NONTRIVIAL = 200
 REQUIRED_COUNTERS = ["schedules", "coarse_schedules_exhaustive", "line_level_schedules", "line_events", "context_switches", "lock_contentions", "first_request_sharing_checked", "render_schedules", "free_running_runs", "beaker_first_use_races"]
 REQUIRED_COUNTERS += ["render_vs_modification_points"]
+REQUIRED_COUNTERS += ["decorator_rendezvous_runs"]
 SHARDS = {"quick": 32, "thorough": 64}
 
 _st = {"sched": None}
@@ -381,10 +382,12 @@ RENDER_TEMPLATES = {
     # them later in the render
     "/sub/imp.html": '<%def name="imported(a)">IMP(${a}|${who})</%def><%def name="imp2()">I2(${who})</%def>',
     "/sub/main.html": '<%inherit file="/base.html"/><%namespace name="n" file="ns.html"/><%namespace file="imp.html" import="imported, imp2"/>'
-                  'M(${who})<%include file="inc.html"/>${n.nd(who)}${imported(who)}${cd(who)}${sh()}${outer2()}\n'
+                  '<%!\ndef c16deco(fn):\n    def go(context, *a, **k):\n        context.write("<")\n        r = fn(*a, **k)\n        context.write(">")\n        return r\n    return go\n%>'
+                  'M(${who})<%include file="inc.html"/>${n.nd(who)}${imported(who)}${cd(who)}${sh()}${outer2()}${dd(who)}${dd(1)}\n'
                   '% for i in range(2):\n${loop.index}${who}\n% endfor\n'
                   '<%def name="cd(a)" cached="True" cache_key="k-${a}" cache_timeout="30" cache_type="tA">CD(${a})</%def>'
                   '<%def name="sh()" cached="True" cache_type="tB">SH</%def>'
+                  '<%def name="dd(a)" decorator="c16deco">DD(${a}|${who})</%def>'
                   '<%def name="outer2()">O2[<%def name="in2()">${imported(who)}${imp2()}</%def>${who}${in2()}${in2()}]</%def>',
 }
 
@@ -758,6 +761,39 @@ def run_render_vs_modification(res):
                 shutil.rmtree(base, ignore_errors=True)
 
 
+def run_decorator_rendezvous(res):
+    """two renders of one Template are INSIDE the decorator of a top-level def at the same time (the decorator holds
+    both at a barrier before it calls the def): each def body still runs with its own render's context"""
+    lk = _st["TemplateLookup"]()
+    lk.put_string("/dec.html", '<%!\ndef gate(fn):\n    def go(context, *a, **k):\n        try:\n            context["barrier"].wait(5)\n        except Exception:\n            pass\n'
+                               '        return fn(*a, **k)\n    return go\n%>hello ${who}|${dd(1)}|${dd(2)}<%def name="dd(n)" decorator="gate">[${who}:${n}]</%def>')
+    lk.put_string("/inc_dec.html", 'I{<%include file="/dec.html"/>}')
+    for uri, fmt in (("/dec.html", "hello %s|[%s:1]|[%s:2]"), ("/inc_dec.html", "I{hello %s|[%s:1]|[%s:2]}")):
+        tpl = lk.get_template(uri)
+        barrier = threading.Barrier(2)
+        outs = {}
+
+        def work(who):
+            try:
+                outs[who] = tpl.render_unicode(who=who, barrier=barrier)
+            except Exception as e:
+                outs[who] = "%s: %s" % (type(e).__name__, e)
+
+        ths = [threading.Thread(target=work, args=(w,), daemon=True) for w in ("alice", "bob")]
+        for t in ths:
+            t.start()
+        for t in ths:
+            t.join(60)
+        res.evaluations += 1
+        res.count("decorator_rendezvous_runs")
+        for who in ("alice", "bob"):
+            want = fmt % (who, who, who)
+            if outs.get(who) != want:
+                res.violate("render-differs-from-solo", "two renders of %s inside the decorator of a top-level def at the same time: %s got %r, alone it renders %r" % (uri, who, outs.get(who), want),
+                            witness="concurrent renders meeting inside a def decorator")
+        res.nontrivial("decorator-rendezvous", uri)
+
+
 # ------------------------------------------------------------------ plumbing
 def gen_cases(tier, seed):
     for name, (_, threads, _, cbound) in SCENARIOS.items():
@@ -830,6 +866,8 @@ def run_case(case):
             run_beaker_first_use(res)
         if case["index"] == 1:
             run_render_vs_modification(res)
+        if case["index"] == 2:
+            run_decorator_rendezvous(res)
     elif k == "replay":
         st = sched.DFS(case["prefix"], case["bound"])
         run_schedule(case["scenario"], st, case["line"], res, case)
